@@ -35,6 +35,10 @@ NoPanic5 == /\ Ev.value # -1 /\ Ev.v_value # -1 /\ Ev.v_rank # -1 /\ Ev.v_valida
             /\ Ev.v_rank_validated # -1 /\ Ev.v_free # -1 /\ Ev.product # -1 /\ Ev.idx # -1
 NoPanicN == /\ Ev.value # -1 /\ Ev.v_value # -1 /\ Ev.v_rank # -1 /\ Ev.v_validated # -1 /\ Ev.v_rank_validated # -1
 
+(* the rank returned by hand_rank_validated(): the conversion of the validated value (C04, C06) *)
+ValidatedRankIs(v) == /\ Ev.name_validated = NameOfValue(v) /\ Ev.class_validated = ClassOfValue(v)
+                      /\ Ev.consistent_validated = TRUE
+
 ClampKey(k) == IF k[1] = 0 /\ k[2] = 0 /\ k[3] < 32768 THEN k[3] * 65536 + k[4] ELSE BIGKEY
 
 ---------------------------------------------------------------------------
@@ -58,6 +62,7 @@ Rank5Ok ==
             /\ Assert(model = v, <<"SPEC ERROR: CactusKev does not refine PokerRules on", h>>)
             /\ Ev.value = v /\ Ev.v_value = v /\ Ev.v_rank = v /\ Ev.v_validated = v       \* C01
             /\ Ev.v_rank_validated = v /\ Ev.v_free = v
+            /\ ValidatedRankIs(v)
             /\ Ev.witness = h                                                              \* C03
             /\ Ev.name = CategoryName(Category(cls)) /\ Ev.class = ClassName(cls)           \* C06
             /\ Ev.name = NameOfValue(v) /\ Ev.class = ClassOfValue(v)
@@ -74,11 +79,13 @@ Rank5Ok ==
                   /\ Ev.v_rank_validated = 0 /\ Ev.v_free = 0
                   /\ Ev.name = Invalid /\ Ev.class = Invalid
             /\ Ev.v_validated = 0 /\ Ev.v_free = 0 /\ Ev.v_rank_validated = 0               \* C04: not a hand
+            /\ ValidatedRankIs(0)
             /\ Ev.product = MultiplyPrimes(h)
             /\ Adv(Ev.value = model, "value of a repeated-card hand")
             /\ Adv(Ev.straight = IsStraightW(h), "straight predicate on a non-hand")
        ELSE
             /\ Ev.v_validated = 0 /\ Ev.v_free = 0 /\ Ev.v_rank_validated = 0               \* C04: not a hand
+            /\ ValidatedRankIs(0)
             /\ Adv(Ev.value = model, "value of arbitrary words")
 
 (* rankn: six / seven slots -- best-of loop, witness.                      *)
@@ -102,12 +109,16 @@ RankNOk ==
             /\ Assert(WitnessOk(h, model.witness, v), <<"SPEC ERROR: model witness", h>>)
             /\ Ev.value = v /\ Ev.v_value = v /\ Ev.v_rank = v                              \* C02
             /\ Ev.v_validated = v /\ Ev.v_rank_validated = v                                \* C04
+            /\ ValidatedRankIs(v)
             /\ WitnessOk(h, Ev.witness, v)                                                  \* C03
             /\ Ev.name = NameOfValue(v) /\ Ev.class = ClassOfValue(v)                       \* C06
             /\ Adv(Ev.witness = model.witness, "which of several tied witnesses")
        ELSE
             /\ Ev.v_validated = 0 /\ Ev.v_rank_validated = 0                                \* C04
+            /\ ValidatedRankIs(0)
             /\ CardOrBlank(h) => NoPanicN                                                   \* C05
+            /\ CardOrBlank(h) => Adv(Ev.value = RankNV(h, RowsFor(n), "fixed", "checked").value,
+                                     "value of a six/seven-slot hand with blanks or repeats (best over its rankable five-slot selections)")
 
 ValidOk ==
     LET h == Ev.words
@@ -121,6 +132,7 @@ ValidOk ==
     /\ n >= 5 =>
          LET v == IF valid THEN Best(CardSetOf(h)) ELSE 0 IN
          /\ Ev.v_validated = v /\ Ev.v_rank_validated = v
+         /\ ValidatedRankIs(v)
          /\ (n = 5 => Ev.v_free = v)
          /\ (valid => Ev.v_value = v)
 
@@ -267,6 +279,22 @@ TwoFromBcOk == LET r == TwoFromBits(Ev.bc) sp == TwoFromBitsSpec(Ev.bc) IN
                /\ sp.kind = "ok" => Ev.back = Ev.bc
 
 ---------------------------------------------------------------------------
+(* Advisory extensions: behaviour that no listed property speaks about.    *)
+(* Modelled and compared, but never blocking.                              *)
+RECURSIVE SeqCmp(_, _, _)
+SeqCmp(a, b, i) == IF i > Len(a) THEN "Equal"
+                   ELSE IF WLt(a[i], b[i]) THEN "Less" ELSE IF WLt(b[i], a[i]) THEN "Greater" ELSE SeqCmp(a, b, i + 1)
+AdvSerdeOk == Adv(Ev.as_numbers = Ev.words /\ Ev.back = Ev.words, "serde round trip of a container (a JSON array of the words)")
+AdvCmpOk == /\ Adv(Ev.cmp = SeqCmp(Ev.a, Ev.b, 1), "derived ordering of containers is lexicographic on the words")
+            /\ Adv(Ev.eq = (Ev.a = Ev.b), "container equality")
+AdvHrOk == Adv(Ev.round_trip /\ Ev.display_is_debug, "serde round trip / Display of a hand rank")
+AdvConstsOk == /\ Adv(Ev.possible_combinations = POSSIBLE_COMBINATIONS /\ Ev.possible_combinations_free = POSSIBLE_COMBINATIONS, "POSSIBLE_COMBINATIONS")
+               /\ Adv(Ev.straight_padding = STRAIGHT_PADDING /\ Ev.wheel_or_bits = WHEEL_OR_BITS, "straight constants")
+               /\ Adv(Ev.no_hand_rank_value = 0 /\ Ev.deck_size = DeckSize, "NO_HAND_RANK_VALUE / DECK_SIZE")
+               /\ Adv(Ev.rank_flag_filter = <<RANK_FLAG_HI, 0>> /\ Ev.suit_filter = <<0, SUIT_MASK>>, "field masks")
+               /\ Adv(Ev.multiples_filter = <<RANK_FLAG_HI, 65535>> /\ Ev.pair = <<PAIR_HI, 0>> /\ Ev.trips = <<TRIPS_HI, 0>> /\ Ev.quads = <<QUADS_HI, 0>>, "multiples constants")
+
+---------------------------------------------------------------------------
 EventOk ==
     CASE Ev.op = "rank5" -> Rank5Ok
       [] Ev.op = "rankn" -> RankNOk
@@ -306,6 +334,10 @@ EventOk ==
       [] Ev.op = "bc_info" -> BcInfoOk
       [] Ev.op = "bc_peel" -> BcPeelOk
       [] Ev.op = "two_from_bc" -> TwoFromBcOk
+      [] Ev.op = "adv_serde" -> AdvSerdeOk
+      [] Ev.op = "adv_cmp" -> AdvCmpOk
+      [] Ev.op = "adv_hr" -> AdvHrOk
+      [] Ev.op = "adv_consts" -> AdvConstsOk
       [] Ev.op = "reset" -> TRUE
       [] OTHER -> FALSE
 
